@@ -269,6 +269,11 @@ Proof.
   rewrite rm_item_spec. apply IH.
 Qed.
 
+Theorem collection_survivors s rows victim x :
+  In x (coll_after s rows victim) <->
+  In x (outer_items rows) /\ item_live (match victim with Some v => rm_item s v | None => s end) x = true.
+Proof. unfold coll_after, survivors. apply filter_In. Qed.
+
 (** * However evaluated: the reverse indices give what the filter gives (reachable stores).
    The evaluator obtains the candidates of an ANNOTATION query from a reverse index when the
    first constraint has one; by C01 (every reverse index of every reachable store is exact)
